@@ -3,7 +3,7 @@
 # Applies the patch to a scratch worktree of /repo HEAD and runs the quick checks against it.
 set -u
 PATCH=$(readlink -f "$1"); shift
-WT=/tmp/wt-eval
+WT=${WT:-/tmp/wt-eval}
 if [ ! -d $WT ]; then git -C /repo worktree add -q --detach $WT HEAD; fi
 git -C $WT checkout -q --detach $(git -C /repo rev-parse HEAD) 2>/dev/null
 git -C $WT checkout -q -- . ; git -C $WT clean -fdq
